@@ -2,7 +2,7 @@
 """try_patch.py PATCH PROP[,PROP..|all] [--keep]: apply a patch to a scratch copy of the package and run checks in parallel."""
 import os, shutil, subprocess, sys, tempfile
 from concurrent.futures import ThreadPoolExecutor
-ALL = ['C02','C03','C04','C05','C06','C07','C08','C09','C10','C11','C12','C13','C14','C15','C16','C17','C18','C19','C20']
+ALL = ['C01','C02','C03','C04','C05','C06','C07','C08','C09','C10','C11','C12','C13','C14','C15','C16','C17','C18','C19','C20']
 patch = os.path.abspath(sys.argv[1])
 props = ALL if sys.argv[2] == 'all' else sys.argv[2].split(',')
 d = tempfile.mkdtemp(prefix='tp_', dir='/dev/shm')
